@@ -6,6 +6,7 @@
 // containers (string, vector, map) = 16-bit count followed by the elements;
 // pair / tuple / reflectable struct = the members in declaration (reflect) order, nothing else.
 #pragma once
+#include <cfloat>
 #include <cstdint>
 #include <cstdlib>
 #include <cstring>
@@ -28,6 +29,7 @@ namespace c09
     typedef uint64_t u64;
     typedef float f32;
     typedef double f64;
+    typedef long double ld; // x86-64: 16-byte object, 10 value bytes (x87 extended), 6 indeterminate padding bytes
     typedef std::string str;
 
     // ---------------------------------------------------------------- reflectable structs
@@ -85,6 +87,62 @@ namespace c09
         auto fields() const { return std::tie(a, b, c, d); }
         static const char *c09_name() { return "Plain{i32,u8,i16,double}"; }
     };
+
+    // user types whose default-constructed state is NOT empty: the object that receives a decoded value
+    // (deserialize<T>() starts from T{}) already holds longer strings / non-empty containers.
+    struct DefaultedN // scalars and vectors only (both frameworks)
+    {
+        std::vector<uint16_t> v = {1, 2, 3};
+        int32_t x = 7;
+        std::vector<std::vector<uint8_t>> vv = {{9}, {}};
+        template <class R> void reflect(R &r)
+        {
+            r &v;
+            r &x;
+            r &vv;
+        }
+        template <class A> void serialize_reflect(A &r)
+        {
+            r &v;
+            r &x;
+            r &vv;
+        }
+        template <class A> void serialize_reflect(A &r) const
+        {
+            r &v;
+            r &x;
+            r &vv;
+        }
+        auto fields() { return std::tie(v, x, vv); }
+        auto fields() const { return std::tie(v, x, vv); }
+        static const char *c09_name() { return "Defaulted{vector<u16>={1,2,3},i32=7,vector<vector<u8>>={{9},{}}}"; }
+    };
+    struct DefaultedO // old framework: string, vector and map members with defaults
+    {
+        std::string name = "unnamed-device";
+        std::vector<uint16_t> v = {1, 2, 3};
+        std::map<uint8_t, std::string> m = {{1, "one"}, {200, "two hundred"}};
+        int32_t x = 7;
+        template <class R> void reflect(R &r)
+        {
+            r &name;
+            r &v;
+            r &m;
+            r &x;
+        }
+        auto fields() { return std::tie(name, v, m, x); }
+        auto fields() const { return std::tie(name, v, m, x); }
+        static const char *c09_name() { return "Defaulted{string=\"unnamed-device\",vector<u16>={1,2,3},map<u8,string>={..},i32=7}"; }
+    };
+
+    // bytes of a scalar object that carry its value (the rest is padding the statement cannot pin)
+    template <class T> constexpr size_t value_bytes()
+    {
+        if constexpr (std::is_same<T, long double>::value && LDBL_MANT_DIG == 64)
+            return 10;
+        else
+            return sizeof(T);
+    }
 
     // ---------------------------------------------------------------- traits
     template <class T> struct is_vector : std::false_type
@@ -155,6 +213,8 @@ namespace c09
             return "float";
         else if constexpr (std::is_same<T, f64>::value)
             return "double";
+        else if constexpr (std::is_same<T, ld>::value)
+            return "long double";
         else if constexpr (std::is_same<T, str>::value)
             return "string";
         else if constexpr (has_name<T>::value)
@@ -230,7 +290,13 @@ namespace c09
     template <class T> T scalar_value(int k)
     {
         // order: most interesting first (deeper positions take a prefix)
-        if constexpr (std::is_floating_point<T>::value)
+        if constexpr (std::is_same<T, long double>::value)
+        {
+            // legitimate x87 values only (full mantissa, quiet NaN, -0, 1, max, 0)
+            static const long double val[6] = {1.0L / 3.0L, __builtin_nanl(""), -0.0L, 1.0L, LDBL_MAX, 0.0L};
+            return val[k];
+        }
+        else if constexpr (std::is_floating_point<T>::value)
         {
             T v;
             if (sizeof(T) == 4)
@@ -414,51 +480,79 @@ namespace c09
     }
 
     // ---------------------------------------------------------------- reference encoder (independent of igris)
-    inline void ref_u16(std::string &o, size_t n)
+    // `mask` (optional) gets one char per encoded byte: '1' = pinned by the layout, '0' = padding inside a scalar
+    // image (long double) that the writer copies from indeterminate memory; see same_layout().
+    inline void ref_u16(std::string &o, size_t n, std::string *mask)
     {
         uint16_t c = (uint16_t)n;
         o.append((const char *)&c, 2);
+        if (mask)
+            mask->append(2, '1');
     }
-    template <class T> void ref_enc(std::string &o, const T &v)
+    template <class T> void ref_enc(std::string &o, const T &v, std::string *mask = nullptr)
     {
         if constexpr (is_scalar_v<T>)
-            o.append((const char *)&v, sizeof(T));
+        {
+            o.append((const char *)&v, value_bytes<T>());
+            o.append(sizeof(T) - value_bytes<T>(), '\0');
+            if (mask)
+            {
+                mask->append(value_bytes<T>(), '1');
+                mask->append(sizeof(T) - value_bytes<T>(), '0');
+            }
+        }
         else if constexpr (std::is_same<T, str>::value)
         {
-            ref_u16(o, v.size());
+            ref_u16(o, v.size(), mask);
             o.append(v);
+            if (mask)
+                mask->append(v.size(), '1');
         }
         else if constexpr (is_vector<T>::value)
         {
-            ref_u16(o, v.size());
+            ref_u16(o, v.size(), mask);
             for (size_t k = 0; k < v.size(); k++)
-                ref_enc(o, v[k]);
+                ref_enc(o, v[k], mask);
         }
         else if constexpr (is_map<T>::value)
         {
-            ref_u16(o, v.size());
+            ref_u16(o, v.size(), mask);
             for (auto it = v.begin(); it != v.end(); ++it)
             {
-                ref_enc(o, it->first);
-                ref_enc(o, it->second);
+                ref_enc(o, it->first, mask);
+                ref_enc(o, it->second, mask);
             }
         }
         else if constexpr (is_pair<T>::value)
         {
-            ref_enc(o, v.first);
-            ref_enc(o, v.second);
+            ref_enc(o, v.first, mask);
+            ref_enc(o, v.second, mask);
         }
         else if constexpr (is_tuple<T>::value)
-            std::apply([&](const auto &...x) { (ref_enc(o, x), ...); }, v);
+            std::apply([&](const auto &...x) { (ref_enc(o, x, mask), ...); }, v);
         else
-            std::apply([&](const auto &...x) { (ref_enc(o, x), ...); }, v.fields());
+            std::apply([&](const auto &...x) { (ref_enc(o, x, mask), ...); }, v.fields());
+    }
+    // byte-for-byte comparison with the stated layout, padding bytes inside scalar images excluded
+    inline bool same_layout(const char *enc, size_t n, const std::string &ref, const std::string &mask)
+    {
+        if (n != ref.size())
+            return false;
+        for (size_t i = 0; i < n; i++)
+            if (mask[i] == '1' && enc[i] != ref[i])
+                return false;
+        return true;
+    }
+    inline bool same_layout(const std::string &enc, const std::string &ref, const std::string &mask)
+    {
+        return same_layout(enc.data(), enc.size(), ref, mask);
     }
 
     // ---------------------------------------------------------------- structural equality (scalars by image: NaN, -0.0)
     template <class T> bool eq(const T &a, const T &b)
     {
         if constexpr (is_scalar_v<T>)
-            return memcmp(&a, &b, sizeof(T)) == 0;
+            return memcmp(&a, &b, value_bytes<T>()) == 0;
         else if constexpr (std::is_same<T, str>::value)
             return a == b;
         else if constexpr (is_vector<T>::value)
@@ -625,4 +719,28 @@ namespace c09
     }
 
     std::string hexs(const std::string &s, size_t max = 24);
+
+    // value indices used as the pre-populated receiver of an in-place decode of value i (of n):
+    // every other value when the type has at most 40 values, else the neighbours, the last and the middle one
+    inline std::vector<long> receiver_indices(long i, long n)
+    {
+        std::vector<long> r;
+        if (n <= 40)
+        {
+            for (long j = 0; j < n; j++)
+                if (j != i)
+                    r.push_back(j);
+            return r;
+        }
+        long cand[4] = {(i + 1) % n, (i + n - 1) % n, n - 1, n / 2};
+        for (long c : cand)
+        {
+            bool dup = c == i;
+            for (long x : r)
+                dup = dup || x == c;
+            if (!dup)
+                r.push_back(c);
+        }
+        return r;
+    }
 }
